@@ -386,6 +386,13 @@ def run(rep: vk.Report):
         three = [s for s in seqs if len(s) == 3]
         rng.shuffle(three)
         seqs = short + three[:1300]
+    # the shape every staleness bug needs - state, SOLVE, edit, SOLVE - for every edit and every pair of solve methods,
+    # from a linear, a non-linear and a different-variable-set starting objective
+    edits = [L for L in LETTERS if not L.startswith("s:")]
+    solves = [L for L in LETTERS if L.startswith("s:")]
+    for setup in ("min0", "max1", "min3"):
+        for sa, ed, sb in itertools.product(solves, edits, solves):
+            seqs.append((setup, sa, ed, sb))
     n_long = 400 if rep.tier == "quick" else 20000
     for _ in range(n_long):
         seqs.append(tuple(rng.choice(LETTERS) for _ in range(rng.randint(4, 8))))
@@ -444,7 +451,7 @@ def run(rep: vk.Report):
     cov["exhaustive"] = rep.tier != "quick"
     cov["rule"] = (f"operation sequences over a {len(LETTERS)}-letter alphabet: all of length <= 2"
                    + (", 1100 of length 3," if rep.tier == "quick" else ", all of length 3 and 4,")
-                   + " plus sampled sequences of length 4-8; distinct = distinct sequence, non-trivial = at least two different letters")
+                   + " all sequences (objective, solve, edit, solve) over 3 starting objectives x 6 x 19 x 6, plus sampled sequences of length 4-8; distinct = distinct sequence, non-trivial = at least two different letters")
     cov["samples"] = [m["sequence"] for m in cases.meta[300:303]] + [cases.terms[40][:600]]
     cov["alphabet"] = LETTERS
     cov["length_histogram"] = {str(n): sum(1 for m in cases.meta if len(m["sequence"]) == n) for n in range(1, 9)}
